@@ -476,6 +476,18 @@ func runC04(c *rt.Ctx) {
 		c04Apply(0)
 	})
 	c.Require("write-switches-x-read-switches", 56)
+	c.Serial("same-number-other-unit", func(w *rt.W) {
+		for _, m := range []uint64{999, 1000, 1500, 12345, 1000000} {
+			for ka := uint(0); ka <= 50; ka += 10 {
+				for kb := uint(0); kb <= 50; kb += 10 {
+					c04Case(w, m<<ka, 0, false)
+					c04Case(w, m<<kb, 0, false)
+				}
+			}
+			w.ClassN("same-number-other-unit", 1)
+		}
+	})
+	c.Require("same-number-other-unit", 5)
 	coldStart(c, "C04", 140)
 	c.Exhaustive("all sizes below 2^20 x 8 switch combinations")
 	c.Require("stratified-set-under-switches", 8)
